@@ -40,7 +40,7 @@ comms_core, comms_object, udp_bridge = _load_interfaces()
 NAMES = ('e0', 'e1', 'ghost')        # two registered endpoints, one unknown name
 N_EP = 2
 N_NAMES = 3
-MSGS = ('m0', 'm1')
+MSGS = ('m0', 'm1', '')
 
 
 class Double(comms_object.CommsObject):
@@ -72,33 +72,124 @@ class Double(comms_object.CommsObject):
         self.open = False
 
 
+class FakeSocket:
+    """in-memory stand-in for the UDP socket of a UDPObject: recvfrom times out when nothing is queued"""
+
+    def __init__(self, name, log):
+        self.name = name
+        self.log = log
+        self.queue = []
+
+    def sendto(self, payload, addr):
+        self.log.append(('send', self.name, payload.decode('utf-8')))
+        return len(payload)
+
+    def recvfrom(self, n):
+        if not self.queue:
+            self.log.append(('recv', self.name, None))
+            raise TimeoutError('timed out')
+        m = self.queue.pop(0)
+        self.log.append(('recv', self.name, m.decode('utf-8')))
+        return m, ('127.0.0.1', 1)
+
+    def close(self):
+        pass
+
+    def shutdown(self, how):
+        pass
+
+    def settimeout(self, t):
+        pass
+
+    def bind(self, addr):
+        pass
+
+
+class _FakeSocketModule:
+    """replaces the `socket` name inside udp_bridge while a UDP world is alive (no real sockets are opened)"""
+    AF_INET = 2
+    SOCK_DGRAM = 2
+    SHUT_RDWR = 2
+    current_log = None
+
+    @classmethod
+    def socket(cls, *a, **k):
+        return FakeSocket(None, cls.current_log)
+
+
+class _UdpInbox:
+    """list-like view used by the harness to enqueue / inspect pending datagrams of a UDP endpoint"""
+
+    def __init__(self, sock):
+        self.sock = sock
+
+    def append(self, m):
+        self.sock.queue.append(m.encode('utf-8'))
+
+    def __bool__(self):
+        return bool(self.sock.queue)
+
+    def __len__(self):
+        return len(self.sock.queue)
+
+
+class SinkObj:
+    """sinks are registered as BOUND METHODS: a fresh, equal-but-not-identical object on every access"""
+
+    def __init__(self, i, log):
+        self.i = i
+        self.log = log
+
+    def on_message(self, msg):
+        self.log.append(('sink', self.i, msg))
+
+
+class SourceObj:
+    def __init__(self, i, log):
+        self.i = i
+        self.log = log
+
+    def produce(self):
+        self.log.append(('source', self.i, None))
+        return 's%d' % self.i
+
+
+class _Accessor:
+    """w.sinks[i] evaluates obj.method anew each time (like user code passing rec.on_message)"""
+
+    def __init__(self, objs, attr):
+        self.objs = objs
+        self.attr = attr
+
+    def __getitem__(self, i):
+        return getattr(self.objs[i], self.attr)
+
+
 class World:
-    def __init__(self, n_endpoints=N_EP):
+    def __init__(self, n_endpoints=N_EP, kind='mem'):
         self.log = []
+        self.kind = kind
         self.hub = comms_core.Comms()
         self.eps = []
         for i in range(n_endpoints):
-            d = Double(NAMES[i], self.log)
+            if kind == 'udp':
+                udp_bridge.socket = _FakeSocketModule
+                _FakeSocketModule.current_log = self.log
+                d = udp_bridge.UDPObject(NAMES[i], '127.0.0.1', 1, 2, 0.0)
+                d.comm_handle = FakeSocket(NAMES[i], self.log)
+                d.open = True
+                d.inbox = _UdpInbox(d.comm_handle)
+            else:
+                d = Double(NAMES[i], self.log)
             self.hub.endpoints[NAMES[i]] = d
             self.eps.append(d)
-        self.sinks = [self._mk_sink(0), self._mk_sink(1)]
-        self.sources = [self._mk_source(0), self._mk_source(1)]
+        self.sinks = _Accessor([SinkObj(0, self.log), SinkObj(1, self.log)], 'on_message')
+        self.sources = _Accessor([SourceObj(0, self.log), SourceObj(1, self.log)], 'produce')
         # reference model of the rule tables
         self.m_fwd = {}
         self.m_sinks = {}
         self.m_srcs = {}
         self.n_ep = n_endpoints
-
-    def _mk_sink(self, i):
-        def sink(msg):
-            self.log.append(('sink', i, msg))
-        return sink
-
-    def _mk_source(self, i):
-        def source():
-            self.log.append(('source', i, None))
-            return 's%d' % i
-        return source
 
     # -- expected effects -------------------------------------------------------------------------
     def _known(self, name):
@@ -122,6 +213,8 @@ class World:
                 exp = []
                 if ev[2] is not None:
                     for d in self.m_fwd.get(ev[1], []):
+                        if self.kind == 'udp' and not self.hub.endpoints[d].open:
+                            continue      # a closed UDP port drops what it is asked to send (observed at socket level)
                         exp.append(('send', d, ev[2]))
                     for s in self.m_sinks.get(ev[1], []):
                         exp.append(('sink', s, ev[2]))
@@ -129,6 +222,9 @@ class World:
                     return 'after %r delivered %r expected %r' % (ev, got, exp)
                 i = j
             elif ev[0] == 'source':
+                if self.kind == 'udp' and (i + 1 >= n or seg[i + 1][0] != 'send'):
+                    i += 1                # value handed to a closed UDP port: nothing reaches the socket
+                    continue
                 if i + 1 >= n or seg[i + 1][0] != 'send' or seg[i + 1][2] != 's%d' % ev[1]:
                     return 'source %d value not sent' % ev[1]
                 ep = seg[i + 1][1]
@@ -180,20 +276,22 @@ class World:
                 if r is not exp:
                     return 'setDataSource(%s,%d) returned %r expected %r' % (na, s, r, exp)
             elif op == 4:    # a message arrives at endpoint a (environment), then getData(a)
-                m = MSGS[b % 2]
+                m = MSGS[b % 3]
                 if self._known(na):
                     self.eps[a].inbox.append(m)
+                pending = bool(self._known(na) and self.eps[a].open)
                 r = hub.getData(na)
-                exp = m if (self._known(na) and self.eps[a].open and self.eps[a].inbox is not None) else None
                 seg = self.log[mark:]
                 recvs = [e for e in seg if e[0] == 'recv']
-                if self._known(na):
+                if pending:
                     if len(recvs) != 1:
                         return 'getData(%s) polled %d times' % (na, len(recvs))
+                    if recvs[0][2] is None:
+                        return 'getData(%s): a message was pending but the receive reported no data' % na
                     if r != recvs[0][2]:
                         return 'getData(%s) returned %r but received %r' % (na, r, recvs[0][2])
-                elif r is not None or seg:
-                    return 'getData on unknown port did something'
+                elif r is not None or [e for e in seg if e[0] != 'recv' or e[2] is not None]:
+                    return 'getData on a closed/unknown port did something: %r %r' % (r, seg)
             elif op == 5:    # getData with whatever is pending: time-out if nothing / unknown port
                 pending = bool(self._known(na) and self.eps[a].inbox and self.eps[a].open)
                 r = hub.getData(na)
@@ -217,9 +315,15 @@ class World:
                         hub.closeCom(na)
                     elif b % 3 == 1:
                         hub.openCom(na)
+                        ep = self.eps[a]
+                        if self.kind == 'udp' and getattr(ep.comm_handle, 'name', '') is None:
+                            ep.comm_handle.name = na          # re-opened port: fresh (empty) socket double
+                            ep.inbox = _UdpInbox(ep.comm_handle)
                     else:
                         hub.sendData(na, 'x')
                         seg = self.log[mark:]
+                        if self.kind == 'udp' and not self.eps[a].open:
+                            return None if not seg else 'closed port sent %r' % (seg,)
                         if seg != [('send', na, 'x')]:
                             return 'sendData(%s) logged %r' % (na, seg)
                         return None
@@ -239,9 +343,9 @@ class World:
 N_OPS = 8
 
 
-def run_history(ops):
+def run_history(ops, kind='mem'):
     """ops: list of (op, a, b) small ints -> None if fine else (index, reason)"""
-    w = World()
+    w = World(kind=kind)
     for i, (op, a, b) in enumerate(ops):
         r = w.step(op % N_OPS, a, b)
         if r is not None:
@@ -314,9 +418,9 @@ def _count():
             pass
 
 
-def run_history(ops):
+def run_history(ops, kind='mem'):
     _count()
-    return _orig_run_history(ops)
+    return _orig_run_history(ops, kind)
 
 
 def run_step_from_state(fw, sk, sr, pend, op, a, b):
